@@ -761,6 +761,18 @@ func (g *e2eGen) sizePlan(p *callPlan) {
 	deltas := []int{-2, -1, 0, 1, 2, 5, 700}
 	which := tp.Intn("size", 3) // 0: request side, 1: response side, 2: both small
 	d := deltas[tp.Intn("size", len(deltas))]
+	if k := tp.Intn("sizefrac", 8); k >= 4 {
+		// comfortably inside the limit, but not by a wide margin: 76 to 97 per cent of it (where a limit applied to
+		// an encoded form of the message, a third longer, would already refuse)
+		lim := reqLimit
+		if which == 1 {
+			lim = respLimit
+		}
+		if lim > 200 && which != 2 {
+			d = -(lim * []int{24, 20, 10, 3}[k-4] / 100)
+			g.rc.Fault("message-at-76-to-97-per-cent-of-the-limit")
+		}
+	}
 	// where the bulk of a reply sits: in the result (default), in a response header the handler sets, or
 	// half of it in the correlation id (which every reply, the error replies included, echoes)
 	p.bulk = tp.Intn("bulk", 5)
